@@ -1168,3 +1168,13 @@ M('c10_self_update_from_timer', ['C10'], ['C10-R4'], 'a RemoveDown timer about o
                 if down == self.identity {
                     self.handle_self_update(Incarnation::default(), State::Down, &mut runtime)?;
                 }'''))
+
+# round 4 of refactors by sub-agents (after seed round 5 and the frame rules)
+NP('n_ref4_handle_timer_all_arms', ALL, 'R25: handle_timer, token predicates and per-arm helpers', 'selftest/neutral/R25.diff')
+NP('n_ref4_apply_chain', ALL, 'R26: apply_many/apply_update/handle_apply_summary and Members::apply*', 'selftest/neutral/R26.diff')
+NP('n_ref4_send_message_phases', ALL, 'R27: send_message in phases, fill functions with named conditions', 'selftest/neutral/R27.diff')
+NP('n_ref4_handle_data_tail', ALL, 'R28: tail of handle_data: inactive-sender helper, reply helper', 'selftest/neutral/R28.diff')
+NP('n_ref4_small_files', ALL, 'R29: probe/runtime/payload/error/config', 'selftest/neutral/R29.diff')
+NP('n_ref4_probe_gossip_broadcast', ALL, 'R30: probe_random_member/gossip/broadcast/choose_and_send/announce_to_down', 'selftest/neutral/R30.diff')
+NP('n_ref4_constructors', ALL, 'R31: constructors and accessors', 'selftest/neutral/R31.diff')
+NP('n_ref4_janitorial', ALL, 'R32: 14 janitorial edits over three files', 'selftest/neutral/R32.diff')
